@@ -46,6 +46,7 @@ Inductive input :=
 | IDecode (d : dkind) (j : json) (t : tables)        (* json.Unmarshal(serialise j, &value of kind d) *)
 | IVerify (k : vkind) (tok : token) (t : tables)     (* verifier entry point on a token of that shape *)
 | IHandler (s : shape)                               (* request of that shape to that router / handler function *)
+| IExit (x : xshape)                                 (* valid authenticated request whose x_fault-th storage call fails *)
 | IRoute (e : entry) (class : nat) (req : string)    (* arbitrary route x method x header x body; class = generator family (>0);
                                                         req = digest of the request bytes (identifies the case; never inspected) *)
 | IClient (h : helper) (a : answer) (expect : string) (t : tables)
@@ -64,6 +65,7 @@ Definition model (i : input) : observed :=
   | IDecode d j t => ODecode (decode t d j)
   | IVerify k tok t => OVerify (verify (time_of t) (lang_of t) true true k tok)
   | IHandler s => OHandler (handler true s)
+  | IExit x => OHandler (xhandler true x)
   | IRoute _ _ _ => ORoute RSingle
   | IClient h a e t => OClient (call (time_of t) (lang_of t) true h a e)
   | IUserCode n amount dash =>
@@ -78,6 +80,7 @@ Definition spec (i : input) (o : observed) : bool :=
   | IDecode _ _ _, ODecode c => match c with KPanic => false | _ => true end
   | IVerify _ _ _, OVerify r => match r with VPanic => false | _ => true end
   | IHandler _, OHandler h => single h
+  | IExit _, OHandler h => single h
   | IRoute _ _ _, ORoute k => match k with RSingle => true | _ => false end
   | IClient _ _ _ _, OClient c => match c with CPanic => false | _ => true end
   | IUserCode _ _ _, OUserCode c => match c with KPanic => false | _ => true end
@@ -109,7 +112,7 @@ Definition errcode_eqb (a b : errcode) : bool :=
 Definition outcome_eqb (a b : outcome) : bool :=
   match a, b with
   | OResp s1 c1, OResp s2 c2 => Nat.eqb s1 s2 && errcode_eqb c1 c2
-  | OGrant, OGrant | OPanic, OPanic | ODouble, ODouble | OContinued, OContinued => true
+  | OGrant, OGrant | OFault, OFault | OPanic, OPanic | ODouble, ODouble | OContinued, OContinued => true
   | _, _ => false
   end.
 
@@ -138,9 +141,11 @@ Definition path (i : input) (o : observed) : nat :=
   | IHandler s, OHandler h =>
       match h with
       | OGrant => 7
+      | OFault => 16
       | OResp st _ => match sh_ep s with ENoGrant => 0 | _ => 8 + (if st =? 400 then 0 else 1) end
       | _ => 10
       end
+  | IExit x, OHandler h => match h with OFault => 17 | OGrant => 18 + (if x_fault x =? 0 then 0 else 1) | _ => 10 end
   | IRoute _ c _, _ => 20 + c
   | IClient _ a _ _, OClient c =>
       if negb (a_ok a) then 11
